@@ -134,10 +134,39 @@ def classify_block(ctx, blk, inv, idx, invariants):
             return "inner-tl"
         return None
     if inv in ("InvC01s", "InvC01x", "InvC07", "InvC05"):
+        # the same root cause can also surface as a REAL borrow-conflict panic: the inner thread-local
+        # system fetches what an overlapping outer system holds.  Such a panic is "explained" when an inner
+        # thread-local system of a batch that is inside its window conflicts with a system that is inside run.
+        acc = {e["id"]: (set(e["r"]), set(e["w"])) for e in evs if e["ev"] in ("add", "tl")}
+        owner_batch = {e["inner"]: e["id"] for e in evs if e["ev"] == "batch"}
+        builder_of = {e["id"]: e["b"] for e in evs if e["ev"] in ("add", "tl", "batch", "nest")}
+
+        def conflict(a, b):
+            return bool(a[1] & (b[0] | b[1])) or bool(a[0] & b[1])
+
         mod = []
+        running = set()
+        overlap = {}          # batch gid -> systems that were inside run at some moment of the batch's window
         for e in evs:
+            if e["ev"] == "begin" and e.get("d") == 1:
+                running = set()
+                overlap = {}
+            elif e["ev"] == "fetch":
+                running.add(e["s"])
+            for b in running:
+                if b in owner_batch.values():
+                    overlap.setdefault(b, set()).update(running)
+            if e["ev"] in ("finish", "panic"):
+                running.discard(e["s"])
             if e["ev"] == "tl" and e["b"] in batch_builders:
                 e = dict(e, r=[], w=[])
+            if e["ev"] == "end" and e.get("borrowpanic"):
+                explained = any(owner_batch.get(builder_of[t]) in running and
+                                any(x in acc and builder_of.get(x) != builder_of[t] and conflict(acc[t], acc[x])
+                                    for x in overlap.get(owner_batch.get(builder_of[t]), ()))
+                                for t in inner_tl)
+                if explained:
+                    e = dict(e, borrowpanic=False)
             mod.append(json.dumps(e) + "\n")
         path = ctx.fresh("kf1", "ndjson")
         with open(path, "w") as f:
